@@ -17,10 +17,13 @@ func init() {
 		Explanation: "Decides ONE structural clause of 'page operations act exactly on the selected pages … with unselected pages untouched': a page selection is a map page -> bool in which false means 'taken out by a negated term'. " +
 			"(R1 dominance) in every loop over a page selection (a range over a types.IntSet that is a result of the selection producers of pkg/api or a parameter named like one — the loops of rotate, trim, remove, crop, boundaries, resize, zoom, n-up, images, annotations and extraction) everything that is done with the page number — every call or store that receives the loop key or a value derived from it — happens behind the test of the entry's value: the instruction is dominated by the edge on which the value is true. C31.R4 only asks that the value is read; this rule asks that nothing is done for a page before it is consulted. " +
 			"(R2 TABLE) rotations are stored modulo a full turn: composePageRotation reduces its result with % 360 and corrects a negative remainder (a page rotated four times is a page not rotated; a Rotate of 360 or -90 is not a valid entry). " +
+			"(R3) rotatePage hands composePageRotation the Rotate field of the inherited page attributes; (R4) api.Collect calls ExtractPages with the constant false for the page cache. " +
 			"NOT decided: what an operation does to a selected page (content identity, box arithmetic), the page sequence after insert/remove/collect, inherited attributes.",
 		Rules: []string{
 			"C32.R1 dominance: per-page work in a loop over a page selection is behind the entry's value being true",
 			"C32.R2 TABLE: page rotations are reduced modulo 360 with the negative remainder corrected",
+			"C32.R3 source: rotatePage composes the delta with the effective (inherited) rotation",
+			"C32.R4 TABLE: api.Collect extracts pages without the page cache (one page object per occurrence)",
 		},
 		Assumptions: []string{"page selections reach the page operations as types.IntSet values from the pkg/api producers"},
 		Level:       "other",
@@ -33,6 +36,9 @@ func runC32(c *Ctx) {
 	p, r := c.P, c.R
 	r.MinInst["C32.R1"] = 10
 	r.MinInst["C32.R2"] = 1
+	r.MinInst["C32.R3"] = 1
+	r.MinInst["C32.R4"] = 1
+	checkC32Round4(c)
 	var fns []*ssa.Function
 	for _, fn := range p.Funcs {
 		if isSubject(fn) {
@@ -176,5 +182,76 @@ func runC32(c *Ctx) {
 		r.OK("C32.R2", fid, "rotation modulo a full turn", p.Pos(fn.Pos()), "the sum is reduced with % 360 and a negative remainder is corrected", true)
 	} else {
 		r.Bad("C32.R2", fid, "rotation modulo a full turn", p.Pos(fn.Pos()), "the composed rotation is not reduced modulo 360 with a correction of the negative remainder ("+strings.TrimSpace(fmt.Sprintf("%% 360: %v, < 0 test: %v", mod360, negFix))+"): rotating by -90 or four times by 90 stores a /Rotate that is not one of 0, 90, 180, 270")
+	}
+}
+
+// R3 / R4 (round 4 seeds C32-A, C32-B).
+//
+// R3: a page's rotation is the inherited one unless the page has its own entry; rotating composes the EFFECTIVE
+// rotation with the delta. In rotatePage the first argument of composePageRotation is read from the inherited page
+// attributes PageDict returns (a field named Rotate), not from the page dictionary's own entry.
+//
+// R4: a page collection may name a page several times, and every occurrence is a page of its own in the result (a later
+// operation on one occurrence must not touch the other). api.Collect therefore extracts without the page cache: the
+// cache argument of pdfcpu.ExtractPages is the constant false.
+func checkC32Round4(c *Ctx) {
+	p, r := c.P, c.R
+	if fn := p.Func("pkg/pdfcpu.rotatePage"); fn == nil {
+		r.Bad("C32.R3", "pkg/pdfcpu.rotatePage", "anchor", "", "UNRESOLVED-ANCHOR")
+	} else {
+		n := 0
+		eachInstr(fn, func(_ *ssa.BasicBlock, _ int, i ssa.Instruction) {
+			call, ok := i.(*ssa.Call)
+			if !ok {
+				return
+			}
+			if f := staticCallee(call); f == nil || f.Name() != "composePageRotation" || len(call.Call.Args) != 2 {
+				return
+			}
+			n++
+			okArg := false
+			for _, l := range valueLeaves(call.Call.Args[0]) {
+				if ld, ok := l.(*ssa.UnOp); ok {
+					if fa, ok := ld.X.(*ssa.FieldAddr); ok {
+						f := structField(fa.X.Type(), fa.Field)
+						if f != nil && f.Name() == "Rotate" && strings.Contains(fa.X.Type().String(), "InheritedPageAttrs") {
+							okArg = true
+						}
+					}
+				}
+			}
+			if okArg {
+				r.OK("C32.R3", FuncID(fn), "current rotation", p.Pos(call.Pos()), "the effective rotation (InheritedPageAttrs.Rotate) is composed with the delta", true)
+			} else {
+				r.Bad("C32.R3", FuncID(fn), "current rotation", p.Pos(call.Pos()), "the rotation that is composed with the delta is "+exprName(call.Call.Args[0])+", not the effective rotation from the inherited page attributes: a page that inherits /Rotate 90 and is rotated by 90 ends up at 90 instead of 180")
+			}
+		})
+		if n == 0 {
+			r.Bad("C32.R3", FuncID(fn), "current rotation", p.Pos(fn.Pos()), "UNDECIDED: rotatePage does not call composePageRotation")
+		}
+	}
+	if fn := p.Func("pkg/api.Collect"); fn == nil {
+		r.Bad("C32.R4", "pkg/api.Collect", "anchor", "", "UNRESOLVED-ANCHOR")
+	} else {
+		n := 0
+		eachInstr(fn, func(_ *ssa.BasicBlock, _ int, i ssa.Instruction) {
+			call, ok := i.(*ssa.Call)
+			if !ok {
+				return
+			}
+			if f := staticCallee(call); f == nil || f.Name() != "ExtractPages" || len(call.Call.Args) != 3 {
+				return
+			}
+			n++
+			cst, isC := call.Call.Args[2].(*ssa.Const)
+			if isC && cst.Value != nil && cst.Value.String() == "false" {
+				r.OK("C32.R4", FuncID(fn), "one page object per occurrence", p.Pos(call.Pos()), "pages are extracted without the page cache", true)
+			} else {
+				r.Bad("C32.R4", FuncID(fn), "one page object per occurrence", p.Pos(call.Pos()), "a page collection is extracted with the page cache: a page named twice becomes ONE page object listed twice in /Kids, so a later operation on one occurrence (rotate, crop, boxes) changes the other, unselected one as well")
+			}
+		})
+		if n == 0 {
+			r.Bad("C32.R4", FuncID(fn), "one page object per occurrence", p.Pos(fn.Pos()), "UNDECIDED: Collect does not call ExtractPages")
+		}
 	}
 }
